@@ -6,7 +6,7 @@ func init() {
 		"the whole statement in the form `no public operation writes memory that existed before it started` (R1 over every public root: receiver, arguments and every frame, grouper or view that shares storage with them stay bit-for-bit unchanged for every sharing history; append on a prestate slice counts as a write).",
 		"nothing is excluded; the verdict rests on the points-to abstraction (allocation-site objects, folded recursive paths, by-value nesting bounded at 5) and on the library summary table.",
 		"New keeps the caller's slices by reference: a caller who later writes them alters the frame (caller's write, outside the property)")
-	prop("C02", []string{"R3", "R4", "R5", "R6", "R7", "R8", "R42", "R40", "R31", "R35", "R59", "R57", "R67", "R74", "R79", "R80", "R98", "R94", "R102", "R106", "R72", "R109"},
+	prop("C02", []string{"R3", "R4", "R5", "R6", "R7", "R8", "R42", "R40", "R31", "R35", "R59", "R57", "R67", "R74", "R79", "R80", "R98", "R94", "R102", "R106", "R72", "R109", "R113"},
 		"(i) OR accumulation is sound for every nesting: every store into the shared boolean index is monotone (R3); (ii) every built-in comparison kernel compares with the operator its table key names, cell on the left, column arguments read on the same row, all five types agreeing (R4); (iii) the negation shortcut is the logical complement including nulls, per column type (R5); (iv) kernels read the cell of row i at physical position index[i] and write bit i (R6, R42); (v) kept rows are a subsequence of the frame's rows in order, once each, foreign positions excluded (R7, R8); errors of column kernels reach Err (R31).",
 		"that orFrames' merge selects exactly the union and NotClause exactly the difference (value reasoning; they are in-order subsequences by R8); semantics of in/any_bits/all_bits; int<->float promotion; user predicates.")
 	prop("C03", []string{"R9", "R10", "R7", "R1s", "R6", "R78"},
@@ -24,13 +24,13 @@ func init() {
 	prop("C07", []string{"R14", "R15", "R21", "R31", "R53", "R1a", "R1x", "R47", "R13", "R40", "R42", "R6", "R93", "R103", "R105", "R107"},
 		"no temporary survives and no original column is dropped (R14); operands are applied in the order written in the binary forms, across the constructor/execute pairs (R15); function lookups are comma-ok and failures surface through Err (R21, R31); evaluation does not write the original frame or the evaluation context (R1a).",
 		"the left fold of n-ary Expr (recursive slice surgery); decoding priority in newExpr; that the function found is the right one.")
-	prop("C08", []string{"R16", "R17", "R18", "R13", "R19", "R25", "R1n", "R39", "R51", "R1r", "R73", "R82", "R93", "R98"},
+	prop("C08", []string{"R16", "R17", "R18", "R13", "R19", "R25", "R1n", "R39", "R51", "R1r", "R73", "R82", "R93", "R98", "R111"},
 		"unequal lengths are rejected for every column order (R16); illegal names never enter a frame (R17); Slice validates 0<=start<=end<=len before slicing (R18); positions stay consistent through New/Select/Drop/Copy (R13); the string cell packing is one consistent bit layout (R19); ColumnOrder/Enums are consulted (R25); projections do not disturb the source (R1n); column names are validated before any success return (R39).",
 		"that cell values are reproduced (value level); alphabetical default order (a sort.Strings call exists; listed, not proved); byte-blob offsets in scolumn.New*.")
 	prop("C09", []string{"R6", "R42", "R44", "R63", "R70", "R13", "R84", "R85", "R98", "R104"},
 		"every accessor translates logical row i to position index[i]: views, ToCSV, ToJSON, String, ToSQL builders, Equals (R6); Equals reads the receiver through its own index and the other column through the other index at the same logical row, for all five types, and a type mismatch is unequal (R44); column order observed through names and through positions agree (R13).",
 		"reflexivity/symmetry/transitivity as such; NaN/null equality is checked only as far as R44's shape; String's truncation; `rebuilt with New is Equal`.")
-	prop("C10", []string{"R20", "R21", "R22", "R23", "R17", "R18", "R31", "R41", "R39", "R46", "R52", "R16", "R81", "R84", "R104", "R107", "R109"},
+	prop("C10", []string{"R20", "R21", "R22", "R23", "R17", "R18", "R31", "R41", "R39", "R46", "R52", "R16", "R81", "R84", "R104", "R107", "R109", "R111"},
 		"stickiness without callbacks, Len() = -1 on error, writers refuse errored frames (R20); dynamic union types are decoded without a panicking construct: table lookups are comma-ok before the call (R21), non-comma-ok type assertions and explicit panics equal the frozen documented lists (R22, R23); illegal names and bad slice bounds are rejected (R17, R18); errors from column kernels reach Err (R31); results of failing calls are not used before the error test (R41); names are validated before any early success return (R39).",
 		"absence of implicit panics in general (index out of range, nil dereference) beyond the specific ones above; nil FilterClause/Expression arguments and zero-value clause structs.")
 	prop("C11", []string{"R1", "R2", "R47", "R65"},
@@ -59,7 +59,7 @@ func init() {
 	prop("C18", []string{"R35", "R59", "R57", "R33", "R3", "R42", "R74", "R101", "R102"},
 		"matcher selection and anchoring for all 16 pattern classes, both column types agreeing (R35); the custom upper-casing never stores a non-ASCII rune as a single byte (R33); nulls never reach the matcher (R35 dominance; enum matching ranges over values).",
 		"agreement of the rest of the ToUpper copy with strings.ToUpper (buffer growth, length-changing code points); regular-expression assembly.")
-	prop("C19", []string{"R6", "R36", "R25", "R29", "R31", "R41", "R48", "R2c", "R1w", "R1r", "R71", "R83", "R90", "R91", "R93"},
+	prop("C19", []string{"R6", "R36", "R25", "R29", "R31", "R41", "R48", "R2c", "R1w", "R1r", "R71", "R83", "R90", "R91", "R93", "R112"},
 		"necessary conditions only: rows and arguments are taken through the index in frame order (R6); all five column types have an argument builder (R36); all dialect/config fields are consulted (R25); driver errors surface and a failing result set is not taken for a complete one (R29, R31, R41).",
 		"statement text per dialect; typed scanning and NULL back-fill; write/read agreement through a real store.")
 }
